@@ -15,7 +15,10 @@ HOSTILE = ['', ' ', '\n', 'not a traceback', '<script>XSS1</script>', '{tb_str} 
            'Traceback (most recent call last):\n  File "x.py", line 1, in f', 'ValueError: <b>bold</b>', 'A:B:C', ':', 'x' * 5000, '\r\nCRLF: yes\r\n',
            'Type With Space: msg', 'http://x/?a=1&b=2', '%s %(x)s {0} {{}}']
 TOKENS = ['<script>XSS1', '<h1>XSS4', '" onload="XSS7', "' x='y'"]
-PATHS = ['/', '/anything', '/a/b/c/', '//x', '/<b>', '/favicon.ico', '/clastic_assetsx', '/a b']
+PATHS = ['/', '/anything', '/a/b/c/', '//x', '/<b>', '/favicon.ico', '/clastic_assetsx', '/a b',
+         # below the prefix of the page's own static assets, but not an asset: still the failsafe page
+         '/clastic_assets/../flaw.py', '/clastic_assets/..', '/clastic_assets//etc/hosts', '/clastic_assets/no-such.css',
+         '/clastic_assets/', '/clastic_assets', '/clastic_assets/css/../../../setup.py']
 METHODS = ['GET', 'POST', 'HEAD', 'PUT', 'DELETE']
 
 
